@@ -9,6 +9,13 @@ Case kinds (all JSON-serialisable, self-contained; molecules are `harness.molgen
   {"kind": "route",    "species": [{"start": spec, "end": spec | None}…], "order": [int…],
                        "restr" / "deform" / "ign": None | [[name, pyvalue]…], "labels": [str…],
                        "parse": True (default) | "manager" | False, "pre": [[name, None | [[i, j]…]]…] (parse False)}
+  {"kind": "gparse",   "species": […], "order": […], "restr" / "deform" / "ign": as in "route", "guess": bool,
+                       "labels": [str…]}              # Manager.parse_restrictions(restr, guess_proteins=guess), then
+                                                      # Manager.align_molecules(parsed, …, parse_restrictions=False)
+  {"kind": "setters",  "mols": [spec…], "init": [arg, arg], "ops": [["S" | "E", arg]…], "align": {...}}
+                                                      # arg: None | int (index into mols) | {"py": …} (a non-Molecule)
+  {"kind": "addend",   "species": […], "order": […], "mols": [spec…], "adds": [arg…], "bulk": bool}
+                                                      # Manager.add_end_molecule one by one / add_end_molecules(*all)
 
 What reaches the optimiser is observed by replacing `gaddlemaps._alignment.minimize_molecules` (resolved at
 call time) with a recorder that returns `mol2_positions` unchanged; the `Alignment` being run is known by
@@ -39,7 +46,17 @@ RULE = ("element: 5-char names over letters/digits/symbols; resguess: ALL (L1, L
         "same with the restraints parsed first by Manager.parse_restrictions and passed with parse_restrictions=False, "
         "and with hand-made pre-parsed dictionaries (reversed / shuffled / rotated / subset / empty) passed with "
         "parse_restrictions=False; besides the optimiser input the arguments of every Alignment.align_molecules call "
-        "are compared with the options stored under that species' name. Non-trivial = optimiser "
+        "are compared with the options stored under that species' name; gparse: Manager.parse_restrictions(restrictions, "
+        "guess_proteins=True/False) on generated systems of 2-3 species of 1-7 residues (species of >= 4 residues with end "
+        "molecules of equal / unequal residue counts and equal / substring-compatible / incompatible residue names), "
+        "restrictions None or a dictionary (well-formed values, values under >3-residue species that the flag overrides "
+        "incl. malformed ones, malformed values under <=3-residue species, unknown keys), the result compared with the "
+        "flag-free call entry by entry and passed to Manager.align_molecules(parse_restrictions=False); setters: "
+        "Alignment(start, end) followed by a history of 0-8 start/end assignments (None, non-Molecule values, molecules "
+        "equal / unequal by Molecule.__eq__: other coordinates, renamed atom, other residue number, other name, other "
+        "length) each in its own try, then Alignment.align_molecules on the resulting object (unset start/end included); "
+        "addend: Manager.add_end_molecule sequences (known / unknown name, non-Molecule, second molecule equal / unequal). "
+        "Non-trivial = optimiser "
         "reached with a non-empty restraint list, a guesser result with > 1 group, or a route case with at least one "
         "option dictionary; distinct by canonical hash of the case.")
 
@@ -463,6 +480,22 @@ def res_index(mol):
     return [k for k, r in enumerate(mol.residues) for _ in r]
 
 
+def protein_pair_fails(m1, m2, pairs, prefix="protein"):
+    """clause 2 of the property on a guessed list (same residue count): names of the failed sub-clauses"""
+    r1, r2 = res_index(m1), res_index(m2)
+    fails = []
+    if any(not (0 <= a < len(m1) and 0 <= b < len(m2)) for a, b in pairs):
+        fails.append(prefix + ":index-out-of-range")
+    else:
+        if any(r1[a] != r2[b] for a, b in pairs):
+            fails.append(prefix + ":pair-across-sequence-positions")
+        if {a for a, _ in pairs} != set(range(len(m1))) or {b for _, b in pairs} != set(range(len(m2))):
+            fails.append(prefix + ":atom-without-partner")
+        if pairs != sorted(set(pairs)) or not monotone(pairs):
+            fails.append(prefix + ":atom-order-not-preserved")
+    return fails
+
+
 def eval_protein(ctx, case):
     from gaddlemaps._alignment import guess_protein_restrains
     files = []
@@ -748,6 +781,416 @@ def eval_route(ctx, case):
         cleanup(files)
 
 
+# --------------------------------------------------------------------------- guess_proteins / setters / add_end_molecule
+
+def build_manager(ctx, case, files):
+    """Manager.from_files on the generated system + add_end_molecule for every species with an end spec"""
+    from gaddlemaps import Manager
+    specs = [s["start"] for s in case["species"]]
+    fsys = os.path.join(ctx.scratch, fresh_tag("sys") + ".gro")
+    G.write_system(fsys, specs, case["order"])
+    files.append(fsys)
+    ftops = []
+    for sp in specs:
+        f = os.path.join(ctx.scratch, fresh_tag("top") + ".itp")
+        G.write_itp(f, sp)
+        ftops.append(f)
+    files += ftops
+    man = Manager.from_files(fsys, *ftops)
+    for s in case["species"]:
+        if s.get("end") is not None:
+            man.add_end_molecule(load(ctx, s["end"], files))
+    return man
+
+
+def species_tokens(man):
+    t = [str(len(man.molecule_correspondence))]
+    for name, ali in man.molecule_correspondence.items():
+        t.append(hexs(name))
+        t.append(tok_mol(ali.start))
+        t.append("0" if ali.end is None else "1 " + tok_mol(ali.end))
+    return t
+
+
+def norm_parsed(d):
+    """{name: None | [(i, j)…]} in dict order, as a list"""
+    return [(n, None if v is None else [tuple(int(x) for x in p) for p in v]) for n, v in d.items()]
+
+
+def eval_gparse(ctx, case):
+    files = []
+    try:
+        man = build_manager(ctx, case, files)
+        guess = bool(case["guess"])
+        labels = list(case.get("labels", []))
+        opts = {}
+        for key in ("restr", "deform", "ign"):
+            opts[key] = None if case[key] is None else {name: pyval(v) for name, v in case[key]}
+        sp_toks = species_tokens(man)
+        complete = {n: a for n, a in man.molecule_correspondence.items() if a.end is not None}
+        nres = {n: (len(a.start.resnames), len(a.end.resnames)) for n, a in complete.items()}
+        big = {n: guess and nres[n][0] > 3 for n in complete}
+
+        # ---- the call under test
+        try:
+            got = ("ok", norm_parsed(man.parse_restrictions(opts["restr"], guess_proteins=guess)))
+        except Exception as e:
+            got = ("err", errname(e))
+        # the flag-free call on the same input (reference for "species with <= 3 residues are routed as without the flag")
+        try:
+            base = ("ok", norm_parsed(man.parse_restrictions(opts["restr"])))
+        except Exception as e:
+            base = ("err", errname(e))
+        ctx.case(case, nontrivial=guess and any(big.values()))
+        ctx.count("gparse:" + ("guess" if guess else "noguess") + ":" + ("dict" if opts["restr"] is not None else "none")
+                  + ":" + (got[0] if got[0] == "ok" else "err-" + got[1]))
+        ctx.count(f"gparse:big-species-{sum(big.values())}")
+        for l in labels:
+            ctx.count("gparse:label:" + l)
+        mismatch = [n for n in complete if big[n] and nres[n][0] != nres[n][1]]
+        if mismatch:
+            ctx.count("gparse:big-residue-count-mismatch")
+
+        # ---- oracle: the property's clauses on the returned dictionary
+        ctx.oracle_ok(3)
+        if mismatch and got[0] == "ok":
+            ctx.oracle_fail("gparse:residue-count-mismatch-not-refused", case, {"species": mismatch, "counts": nres, "result": got})
+        must = [l for l in labels if l in ("unknown-name-restr", "malformed-under-small")]
+        if must and got[0] == "ok":
+            for l in must:
+                ctx.oracle_fail(f"gparse:{l}:not-rejected", case, {"result": got})
+        if got[0] == "ok":
+            res = dict(got[1])
+            if list(res) != list(complete):
+                ctx.oracle_fail("gparse:keys-are-not-the-complete-species-in-order", case, {"keys": list(res), "expected": list(complete)})
+            for n, a in complete.items():
+                if n not in res:
+                    continue
+                if big[n]:
+                    ctx.count("gparse:entry-guessed")
+                    if opts["restr"] is not None and n in opts["restr"]:
+                        ctx.count("gparse:entry-guessed-overrides-user-value")
+                    pairs = res[n]
+                    if pairs is None:
+                        ctx.oracle_fail("gparse:big-species-not-guessed", case, {"species": n})
+                        continue
+                    for f in protein_pair_fails(a.start, a.end, pairs, "gparse"):
+                        ctx.oracle_fail(f, case, {"species": n, "pairs": pairs})
+                else:
+                    ctx.count("gparse:entry-normal")
+                    given = (opts["restr"] or {}).get(n)
+                    try:
+                        want = [tuple(int(x) for x in p) for p in given] if given else None
+                    except Exception:
+                        want = "unreadable"
+                    if res[n] != want:
+                        ctx.oracle_fail("gparse:entry-of-another-species-or-changed", case,
+                                        {"species": n, "given": want, "got": res[n]})
+                    if base[0] == "ok" and dict(base[1]).get(n) != res[n]:
+                        ctx.oracle_fail("gparse:small-species-routed-differently-with-the-flag", case,
+                                        {"species": n, "with": res[n], "without": dict(base[1]).get(n)})
+        if not any(big.values()) and got != base:
+            # no species the flag applies to: the flag must change nothing (same result, same error class)
+            ctx.oracle_fail("gparse:flag-changes-result-without-big-species", case, {"with": got, "without": base})
+
+        def cb(status, toks, case, got=got):
+            if status == "err":
+                m = ("err", toks[0])
+            else:
+                t = Toks(toks)
+                m = []
+                for _ in range(t.int()):
+                    nm = unhexs(t.tok())
+                    m.append((nm, t.pairs() if t.int() else None))
+                m = ("ok", m)
+            if m != got:
+                ctx.disagree(case, "Manager.parse_restrictions(guess_proteins)", got, m)
+        ctx.model.ask("c10_parse_guess", " ".join(sp_toks + [tok_dict(opts["restr"], tok_restr), str(int(guess))]), cb, case)
+
+        # ---- the composed call: the parsed dictionary handed to align_molecules(parse_restrictions=False)
+        err = None
+        rec = None
+        if got[0] == "ok":
+            parsed = {n: (None if v is None else list(v)) for n, v in got[1]}
+            defaults = {}
+            for n, a in complete.items():
+                try:
+                    defaults[n] = default_user_pairs(a.start, a.end)
+                except Exception:
+                    defaults[n] = None
+            with Recorder() as rec, contextlib.redirect_stdout(io.StringIO()):
+                try:
+                    man.align_molecules(restrictions=parsed, deformation_types=opts["deform"],
+                                        ignore_hydrogens=opts["ign"], parse_restrictions=False)
+                except Exception as e:
+                    err = errname(e)
+            ctx.count("gparse:align:" + ("err-" + err if err else "ok"))
+            seen = [e["name"] for e in rec.events]
+            ctx.oracle_ok()
+            if err is None and seen != list(complete):
+                ctx.oracle_fail("gparse:species-aligned-not-once-each", case, {"aligned": seen, "expected": list(complete)})
+            for ev in rec.events:
+                name = ev["name"]
+                if name not in complete or not ev["done"] or not ev["opt"]:
+                    continue
+                ali = complete[name]
+                user = parsed[name] if parsed[name] is not None else defaults[name]
+                if user is None:
+                    continue
+                given_h = (opts["ign"] or {}).get(name, True)
+                if big[name]:
+                    ctx.count("gparse:guessed-list-reaches-optimiser")
+                check_designation(ctx, case, ev["opt"][0], [tuple(p) for p in user], ali.start, ali.end, bool(given_h), "gparse")
+            impl_calls = [(ev["name"], impl_prep(ev, None)) for ev in rec.events if ev["done"]]
+            impl = {"calls": impl_calls, "err": err}
+        else:
+            impl = {"calls": [], "err": got[1]}
+
+        def cb2(status, toks, case, impl=impl):
+            t = Toks(toks)
+            calls = []
+            for _ in range(t.int()):
+                nm = unhexs(t.tok())
+                calls.append((nm, t.prepout()))
+            e = t.tok()
+            merr = t.tok() if e == "err" else None
+            keys = ["call", "swapped", "fixed", "mobile", "restr", "deform", "nsteps"]
+            a = {"calls": [(n, {k: c.get(k) for k in keys}) for n, c in impl["calls"]], "err": impl["err"]}
+            b = {"calls": [(n, {k: c.get(k) for k in keys}) for n, c in calls], "err": merr}
+            if a != b:
+                ctx.disagree(case, "parse_restrictions(guess_proteins) + align_molecules(parse_restrictions=False)", a, b)
+        # (deformation / flag dictionaries are always well formed in this stream; when the parse raised, the model's
+        # composed call must end with the same error and no alignment)
+        ctx.model.ask("c10_route_guess", " ".join(sp_toks + [tok_dict(opts["restr"], tok_restr),
+                                                            tok_dict(opts["deform"], tok_deform),
+                                                            tok_dict(opts["ign"], tok_ign), str(int(guess))]), cb2, case)
+    finally:
+        cleanup(files)
+
+
+def tok_molid(label, mol):
+    t = [str(label), hexs(mol.name), str(len(mol))]
+    for a in mol:
+        t += [hexs(a.resname), hexs(a.name), str(int(a.index)), str(int(a.top_resid))]
+    return " ".join(t)
+
+
+def same_positions(m1, m2):
+    p1 = np.asarray(m1.atoms_positions, dtype=float)
+    p2 = np.asarray(m2.atoms_positions, dtype=float)
+    return p1.shape == p2.shape and np.array_equal(p1, p2)
+
+
+def eval_setters(ctx, case):
+    from gaddlemaps import Alignment
+    files = []
+    try:
+        mols = [load(ctx, sp, files) for sp in case["mols"]]
+
+        def value(arg):
+            if arg is None:
+                return None
+            if isinstance(arg, int):
+                return mols[arg]
+            return pyval(arg)
+
+        def tok_arg(arg):
+            if arg is None:
+                return "N"
+            if isinstance(arg, int):
+                return "M " + tok_molid(arg, mols[arg])
+            return "X"
+
+        def label_of(stored):
+            if stored is None:
+                return "-"
+            hits = [k for k, m in enumerate(mols) if m.name == stored.name and same_positions(m, stored)]
+            return str(hits[0]) if len(hits) == 1 else "?"
+
+        def state(al):
+            return [label_of(al.start), label_of(al.end)]
+
+        init = case["init"]
+        al = None
+        try:
+            al = Alignment(value(init[0]), value(init[1]))
+            impl = {"ctor": "ok", "state0": state(al)}
+        except Exception as e:
+            impl = {"ctor": errname(e)}
+        outcomes = []
+        if al is not None:
+            for which, arg in case["ops"]:
+                try:
+                    if which == "S":
+                        al.start = value(arg)
+                    else:
+                        al.end = value(arg)
+                    outcomes.append("noerr")
+                except Exception as e:
+                    outcomes.append(errname(e))
+                    ctx.count("setters:" + ("start" if which == "S" else "end") + ":" + errname(e))
+            impl["state"] = state(al)
+            impl["outcomes"] = outcomes
+            ctx.count("setters:accepted", outcomes.count("noerr"))
+        ctx.case(case, nontrivial=any(o != "noerr" for o in outcomes))
+        ctx.count("setters:ctor-" + impl["ctor"])
+
+        def cb(status, toks, case, impl=impl):
+            if status == "err":
+                m = {"ctor": toks[0]}
+            else:
+                t = Toks(toks)
+                m = {"ctor": "ok", "state0": [t.tok(), t.tok()], "state": [t.tok(), t.tok()]}
+                m["outcomes"] = [t.tok() for _ in range(t.int())]
+            if m != impl:
+                ctx.disagree(case, "Alignment.start / Alignment.end setters", impl, m)
+        ops_t = [str(len(case["ops"]))] + [f"{w} {tok_arg(a)}" for w, a in case["ops"]]
+        ctx.model.ask("c10_setops", " ".join([tok_arg(init[0]), tok_arg(init[1])] + ops_t), cb, case)
+
+        # ---- Alignment.align_molecules on the object the history left behind (unset start / end included)
+        if al is not None:
+            ar = case.get("align") or {}
+            restr = None if ar.get("restr") is None else [tuple(p) for p in ar["restr"]]
+            deform = None if ar.get("deform") is None else tuple(ar["deform"])
+            ign = bool(ar.get("ign", True))
+            s_t = "0" if al.start is None else "1 " + tok_mol(al.start)
+            e_t = "0" if al.end is None else "1 " + tok_mol(al.end)
+            unset = al.start is None or al.end is None
+            err = None
+            with Recorder() as rec, contextlib.redirect_stdout(io.StringIO()):
+                try:
+                    al.align_molecules(None if restr is None else list(restr), deform, ign)
+                except Exception as e:
+                    err = errname(e)
+            if unset:
+                # the wrapper could not name the alignment's molecules; nothing must have reached the optimiser
+                impl2 = {"err": err} if err is not None else {"call": False}
+                ctx.count("setters:align-unset:" + str(err))
+                ctx.oracle_ok()
+                if any(ev["opt"] for ev in rec.events):
+                    ctx.oracle_fail("setters:optimiser-reached-with-unset-molecule", case, {"error": err})
+            else:
+                impl2 = impl_prep(rec.events[0], err)
+                ctx.count("setters:align-set:" + ("err-" + err if err else "ok"))
+
+            def cb2(status, toks, case, impl2=impl2):
+                model = {"err": toks[0]} if status == "err" else Toks(toks).prepout()
+                compare_prep(ctx, case, "Alignment.align_molecules on the object's state", impl2, model)
+            r_t = "0" if restr is None else "1 " + tok_pairs(restr)
+            d_t = "0" if deform is None else "1 " + " ".join([str(len(deform))] + [str(int(x)) for x in deform])
+            ctx.model.ask("c10_align_state", f"{s_t} {e_t} {r_t} {d_t} {int(ign)} 1", cb2, case)
+    finally:
+        cleanup(files)
+
+
+def eval_addend(ctx, case):
+    files = []
+    try:
+        man = build_manager(ctx, case, files)          # species carry no "end" here
+        mols = [load(ctx, sp, files) for sp in case["mols"]]
+        ARG = 99
+        n_err = 0
+        if case.get("bulk"):
+            # Manager.add_end_molecules(*molecules): one call, the first exception ends it
+            before = {}
+            corr_t = [str(len(man.molecule_correspondence))]
+            k = 0
+            for name, ali in man.molecule_correspondence.items():
+                before[name] = (ali.start, ali.end, k, k + 1)
+                corr_t.append(hexs(name))
+                corr_t.append("0" if ali.start is None else "1 " + tok_molid(k, ali.start))
+                corr_t.append("0" if ali.end is None else "1 " + tok_molid(k + 1, ali.end))
+                k += 2
+            vals, a_ts = [], []
+            for i, arg in enumerate(case["adds"]):
+                if arg is None:
+                    vals.append(None); a_ts.append("N")
+                elif isinstance(arg, int):
+                    vals.append(mols[arg]); a_ts.append("M " + tok_molid(100 + arg, mols[arg]))     # label = the object
+                else:
+                    vals.append(pyval(arg)); a_ts.append("X")
+            err = None
+            try:
+                man.add_end_molecules(*vals)
+            except Exception as e:
+                err = errname(e)
+            state = []
+            for name, ali in man.molecule_correspondence.items():
+                s0, e0, ls, le = before[name]
+                s_l = "-" if ali.start is None else (str(ls) if ali.start is s0 else "?")
+                if ali.end is None:
+                    e_l = "-"
+                elif ali.end is e0:
+                    e_l = str(le)
+                else:
+                    # the argument object with these positions and this name (every spec has its own coordinates)
+                    hits = sorted({100 + a for a in case["adds"] if isinstance(a, int) and not isinstance(a, bool)
+                                   and mols[a].name == ali.end.name and same_positions(mols[a], ali.end)})
+                    e_l = str(hits[0]) if len(hits) == 1 else "?"
+                state.append((name, s_l, e_l))
+            impl = (state, err or "noerr")
+            ctx.count("addend:bulk:" + (err or "ok"))
+            ctx.case(case, nontrivial=err is not None)
+
+            def cbb(status, toks, case, impl=impl):
+                t = Toks(toks)
+                m = ([(unhexs(t.tok()), t.tok(), t.tok()) for _ in range(t.int())], t.tok())
+                if status != "ok" or m != impl:
+                    ctx.disagree(case, "Manager.add_end_molecules", impl, m)
+            ctx.model.ask("c10_add_ends", " ".join(corr_t + [str(len(a_ts))] + a_ts), cbb, case)
+            return
+        for arg in case["adds"]:
+            # the state before the call, every stored object labelled on the spot
+            before = {}
+            corr_t = [str(len(man.molecule_correspondence))]
+            k = 0
+            for name, ali in man.molecule_correspondence.items():
+                before[name] = (ali.start, ali.end, k, k + 1)
+                corr_t.append(hexs(name))
+                corr_t.append("0" if ali.start is None else "1 " + tok_molid(k, ali.start))
+                corr_t.append("0" if ali.end is None else "1 " + tok_molid(k + 1, ali.end))
+                k += 2
+            if arg is None:
+                val, a_t = None, "N"
+            elif isinstance(arg, int):
+                val, a_t = mols[arg], "M " + tok_molid(ARG, mols[arg])
+            else:
+                val, a_t = pyval(arg), "X"
+            try:
+                man.add_end_molecule(val)
+                impl = ("ok", [])
+                for name, ali in man.molecule_correspondence.items():
+                    s0, e0, ls, le = before[name]
+                    s_l = "-" if ali.start is None else (str(ls) if ali.start is s0 else "?")
+                    if ali.end is None:
+                        e_l = "-"
+                    elif ali.end is e0:
+                        e_l = str(le)
+                    elif val is not None and same_positions(ali.end, val) and ali.end.name == val.name:
+                        e_l = str(ARG)
+                    else:
+                        e_l = "?"
+                    impl[1].append((name, s_l, e_l))
+                ctx.count("addend:ok")
+            except Exception as e:
+                impl = ("err", errname(e))
+                n_err += 1
+                ctx.count("addend:err-" + errname(e))
+
+            def cb(status, toks, case, impl=impl):
+                if status == "err":
+                    m = ("err", toks[0])
+                else:
+                    t = Toks(toks)
+                    m = ("ok", [(unhexs(t.tok()), t.tok(), t.tok()) for _ in range(t.int())])
+                if m != impl:
+                    ctx.disagree(case, "Manager.add_end_molecule", impl, m)
+            ctx.model.ask("c10_add_end", " ".join(corr_t + [a_t]), cb, case)
+        ctx.case(case, nontrivial=n_err > 0)
+    finally:
+        cleanup(files)
+
+
 def evaluate(ctx, case):
     k = case["kind"]
     if k == "element":
@@ -760,6 +1203,12 @@ def evaluate(ctx, case):
         return eval_prep(ctx, case)
     if k == "route":
         return eval_route(ctx, case)
+    if k == "gparse":
+        return eval_gparse(ctx, case)
+    if k == "setters":
+        return eval_setters(ctx, case)
+    if k == "addend":
+        return eval_addend(ctx, case)
     raise ValueError("unknown case kind " + repr(k))
 
 
@@ -1124,6 +1573,233 @@ def gen_route_pre(ctx):
                "labels": labels}
 
 
+def vary_resnames(rng, names, cls):
+    names2 = list(names)
+    if cls == "substring-names":
+        for i in range(len(names2)):
+            r = rng.random()
+            if r < 0.3 and len(names2[i]) > 2:
+                names2[i] = names2[i][:-1]
+            elif r < 0.5 and len(names2[i]) < 5:
+                names2[i] = names2[i] + rng.choice("ABN")
+    elif cls == "incompatible-names":
+        i = rng.randrange(len(names2))
+        names2[i] = "XQ" + str(rng.randint(0, 9))
+    return names2
+
+
+def gen_system_big(rng):
+    """2-3 species of 1-7 residues; species of >= 4 residues get end molecules with equal (mostly) or unequal
+    residue counts and equal / substring-compatible / incompatible residue names"""
+    letters = "ABC"
+    nsp = rng.choice([2, 2, 3])
+    species = []
+    for s in range(nsp):
+        name = "SP" + letters[s]
+        nres = rng.choice([1, 2, 3, 3, 4, 4, 4, 5, 6, 7])
+        ns = nres + rng.randint(0, 8)
+        start = G.gen_molecule(rng, name, ns, n_res=nres, hfrac=rng.choice([0, 0.3, 0.6]), prefix=letters[s])
+        names1 = [rn for rn, _ in G.residues_of(start)]
+        nres = len(names1)
+        end = None
+        if rng.random() < 0.93:
+            r = rng.random()
+            if r < 0.72:
+                nres_e = nres
+            else:
+                nres_e = max(1, nres + rng.choice([-3, -2, -1, -1, 1, 1, 2]))
+            cls = rng.choice(["same-names"] * 6 + ["substring-names"] * 3 + ["incompatible-names"])
+            names2 = vary_resnames(rng, names1, cls)
+            names2 = (names2 + [letters[s] + rng.choice(G.RESNAMES) for _ in range(3)])[:nres_e]
+            ne = nres_e + rng.randint(0, 6)
+            end = G.gen_molecule(rng, name, ne, hfrac=rng.choice([0, 0.3]), resnames=names2,
+                                 res_sizes=G.split_sizes(rng, ne, nres_e), connected=rng.random() > 0.02)
+        species.append({"start": start, "end": end})
+    order = [s for s in range(nsp) for _ in range(rng.randint(1, 2))]
+    rng.shuffle(order)
+    return species, order
+
+
+def gen_gparse(ctx):
+    rng = ctx.rng
+    for it in range(ctx.n(700, 10000)):
+        species, order = gen_system_big(rng)
+        complete = [s for s in species if s["end"] is not None]
+        cnames = [s["start"]["name"] for s in complete]
+        lens = {s["start"]["name"]: (len(s["start"]["atoms"]), len(s["end"]["atoms"])) for s in complete}
+        nres = {s["start"]["name"]: len(G.residues_of(s["start"])) for s in complete}
+        guess = rng.random() < 0.8
+        labels = []
+        restr = None
+        if rng.random() < 0.7:
+            names = [n for n in cnames if rng.random() < 0.75]
+            rng.shuffle(names)
+            dr = distinct_restr(rng, names, lens)
+            restr = []
+            for n in names:
+                v = dr[n]
+                r = rng.random()
+                if r < 0.1:
+                    v = rng.choice([None, [], ()])
+                elif r < 0.3:
+                    v = [list(p) for p in v]
+                restr.append([n, v])
+            k = rng.random()
+            bigs = [n for n in cnames if nres[n] > 3]
+            smalls = [n for n in cnames if nres[n] <= 3]
+            if k < 0.14 and bigs:
+                # a value the flag overrides: malformed on purpose (not even looked at when guess is on)
+                victim = rng.choice(bigs)
+                bad = rng.choice([[(lens[victim][0] + 3, 0)], [(0, 0, 0)], 5, [("a", 0)], [(-1, 0)], [(0,)]])
+                restr = [e for e in restr if e[0] != victim]
+                restr.insert(rng.randrange(len(restr) + 1), [victim, bad])
+                labels.append("malformed-under-big" if guess else "malformed-under-small")
+            elif k < 0.22 and smalls:
+                victim = rng.choice(smalls)
+                bad = rng.choice([[(lens[victim][0], 0)], [(0, lens[victim][1])], [(0, 0, 0)], 5, [("a", 0)], [(-1, 0)]])
+                restr = [e for e in restr if e[0] != victim]
+                restr.insert(rng.randrange(len(restr) + 1), [victim, bad])
+                labels.append("malformed-under-small")
+            elif k < 0.28:
+                incomplete = [s["start"]["name"] for s in species if s["end"] is None]
+                restr.insert(rng.randrange(len(restr) + 1), [rng.choice(incomplete + ["ZZZ", "SP"]), [(0, 0)]])
+                labels.append("unknown-name-restr")
+        deform = None
+        if rng.random() < 0.4 and cnames:
+            dn = [n for n in cnames if rng.random() < 0.7]
+            deform = [[n, v] for n, v in zip(dn, rng.sample(DEFORM_POOL, len(dn)))]
+        ign = None
+        if rng.random() < 0.5 and cnames:
+            hn = [n for n in cnames if rng.random() < 0.7]
+            fl = distinct_flags(rng, hn)
+            ign = [[n, fl[n]] for n in hn]
+        yield {"kind": "gparse", "species": species, "order": order, "guess": guess,
+               "restr": None if restr is None else [[n, J(v)] for n, v in restr],
+               "deform": None if deform is None else [[n, J(v)] for n, v in deform],
+               "ign": None if ign is None else [[n, J(v)] for n, v in ign],
+               "labels": labels}
+
+
+def mol_variants(rng):
+    """a pool of molecule specs around one base molecule A and one (end-like) molecule B:
+    0 A | 1 A, other coordinates (== A) | 2 A, one atom renamed | 3 A, last atom in another residue number
+    | 4 A under another molecule name | 5 A without its last atom | 6 B | 7 B, other coordinates (== B)
+    | 8 B, one atom renamed"""
+    import copy
+    na = rng.randint(2, 9)
+    # distinct residue names: the .gro reader keeps one prototype residue per (resname, size)
+    nr = min(rng.choice([1, 1, 2]), na)
+    A = G.gen_molecule(rng, "MOLA", na, n_res=nr, hfrac=0.3, resnames=["RSA", "RSB"][:nr],
+                       res_sizes=G.split_sizes(rng, na, nr))
+
+    def recoord(sp):
+        sp = copy.deepcopy(sp)
+        sp["coords"] = G.gen_coords(rng, len(sp["atoms"]))
+        return sp
+
+    def rename(sp):
+        sp = recoord(sp)
+        k = rng.randrange(len(sp["atoms"]))
+        rnr, rn = sp["atoms"][k][0], sp["atoms"][k][1]
+        new = sp["atoms"][k][2] + "X"
+        # residues with the same (resname, size) share atom names in the .gro reader: rename consistently
+        sizes = {}
+        for a in sp["atoms"]:
+            sizes[(a[0], a[1])] = sizes.get((a[0], a[1]), 0) + 1
+        first = [i for i, a in enumerate(sp["atoms"]) if (a[0], a[1]) == (rnr, rn)][0]
+        off = k - first
+        for (r2, n2), sz in sizes.items():
+            if n2 == rn and sz == sizes[(rnr, rn)]:
+                f2 = [i for i, a in enumerate(sp["atoms"]) if (a[0], a[1]) == (r2, n2)][0]
+                sp["atoms"][f2 + off][2] = new
+        return sp
+
+    A1 = recoord(A)
+    A2 = rename(A)
+    A3 = recoord(A)
+    A3["atoms"][-1][0] = A3["atoms"][-1][0] + 1
+    A3["atoms"][-1][1] = "NEWR"
+    A4 = recoord(A)
+    A4["name"] = "MOLZ"
+    A5 = recoord(A)
+    A5["atoms"] = A5["atoms"][:-1]
+    A5["coords"] = A5["coords"][:-1]
+    A5["bonds"] = [b for b in A5["bonds"] if max(b) < na - 1]
+    B = G.gen_molecule(rng, "MOLA", rng.randint(1, 6), hfrac=0.1)
+    B1 = recoord(B)
+    B2 = rename(B)
+    return [A, A1, A2, A3, A4, A5, B, B1, B2]
+
+
+NON_MOLECULES = [5, "mol", 1.5, [1], True]
+
+
+def gen_setters(ctx):
+    rng = ctx.rng
+    for it in range(ctx.n(260, 4000)):
+        mols = mol_variants(rng)
+
+        def arg(side):
+            r = rng.random()
+            if r < 0.12:
+                return None
+            if r < 0.22:
+                return J(rng.choice(NON_MOLECULES))
+            pool = [0, 0, 1, 1, 2, 3, 4, 5] if side == "S" else [6, 6, 7, 7, 8, 0]
+            if rng.random() < 0.12:
+                pool = list(range(len(mols)))
+            return rng.choice(pool)
+        r = rng.random()
+        if r < 0.7:
+            init = [0, 6]
+        elif r < 0.8:
+            init = [0, None]
+        elif r < 0.87:
+            init = [None, 6]
+        elif r < 0.92:
+            init = [None, None]
+        else:
+            init = [arg("S"), arg("E")]
+        ops = []
+        for _ in range(rng.randint(0, 8)):
+            w = rng.choice("SE")
+            ops.append([w, arg(w)])
+        align = {"restr": None if rng.random() < 0.4 else [[0, 0]], "deform": None if rng.random() < 0.7 else [0, 1],
+                 "ign": rng.random() < 0.6}
+        yield {"kind": "setters", "mols": mols, "init": init, "ops": ops, "align": align}
+
+
+def gen_addend(ctx):
+    rng = ctx.rng
+    for it in range(ctx.n(120, 2500)):
+        species, order = gen_system(rng)
+        for sp in species:
+            sp["end"] = None
+        names = [sp["start"]["name"] for sp in species]
+        mols, adds = [], []
+        for _ in range(rng.randint(2, 6)):
+            r = rng.random()
+            if r < 0.12:
+                adds.append(rng.choice([None, J(5), J("SPA"), J([1])]))
+                continue
+            nm = rng.choice(names) if r < 0.85 else rng.choice(["ZZZ", "spa", "SP"])
+            same_as = [k for k, m in enumerate(mols) if m["name"] == nm]
+            if same_as and rng.random() < 0.5:
+                # a second molecule for a species that has one: equal to the stored one (other coordinates) or not
+                import copy
+                sp = copy.deepcopy(mols[rng.choice(same_as)])
+                sp["coords"] = G.gen_coords(rng, len(sp["atoms"]))
+                if rng.random() < 0.3:
+                    adds.append(rng.choice(same_as))        # the very same object again
+                    continue
+            else:
+                sp = G.gen_molecule(rng, nm, rng.randint(1, 6), hfrac=0.2)
+            mols.append(sp)
+            adds.append(len(mols) - 1)
+        yield {"kind": "addend", "species": species, "order": order, "mols": mols, "adds": adds,
+               "bulk": rng.random() < 0.35}
+
+
 def generate(ctx):
     yield from gen_element(ctx)
     yield from gen_resguess(ctx)
@@ -1131,3 +1807,6 @@ def generate(ctx):
     yield from gen_prep(ctx)
     yield from gen_route(ctx)
     yield from gen_route_pre(ctx)
+    yield from gen_gparse(ctx)
+    yield from gen_setters(ctx)
+    yield from gen_addend(ctx)
